@@ -49,6 +49,11 @@ Clauses(e) ==
       ConfiguredAction     |-> IsAct(e) => ConfiguredAction(e.action, e.app),
       ConfiguredStartNode  |-> (IsAct(e) \/ e.ev = "TapAct") => ConfiguredNode(e.node),
       StartNodeFixed       |-> IsAct(e) => NodeFixed(e.node),
+      \* the command-and-control server's host is used for the commands the C2 server issues, for nothing else: every
+      \* other action of a threat actor is taken on one of its configured start nodes
+      C2HostOnlyForC2Commands |->
+          (e.ev = "TapAct" /\ "c2" \in DOMAIN Cfg /\ Cfg.c2 # "" /\ e.node = Cfg.c2 /\ Cfg.c2 \notin SetOf(Cfg.startNodes))
+              => e.c2act,
       \* ---- probabilistic agents
       ChoiceInTable        |-> e.ev = "Choose" => InTable(e.choice),
       NeverZeroProbability |-> e.ev = "Choose" => Positive(e.choice),
